@@ -290,6 +290,12 @@ def _add_many(tier, seed):
                 for sh, rk in (([3, 3], [1, 2, 1]), ([2, 3, 2], [1, 2, 2, 1])):
                     out.append(dict(shape=sh, ranks=rk, items=list(items), freq=freq,
                                     es=[1e-10, 1e-2, 0.2], caps=[1, 2, 1e12], seed=seed))
+    # long lists: the periodic intermediate rounding (every trunc_freq summands, default 15) really happens
+    for L in (15, 16, 17, 31, 32):
+        for freq in (15, 4):
+            for sh, rk in (([3, 3], [1, 2, 1]), ([2, 3, 2], [1, 2, 2, 1])):
+                items = ['T' if j % 5 != 3 else (2 if j % 2 else -0.5) for j in range(L)]
+                out.append(dict(shape=sh, ranks=rk, items=items, freq=freq, es=[1e-10, 1e-2], caps=[1, 2, 1e12], seed=seed))
     return out
 
 
